@@ -18,7 +18,7 @@ RULE = ("seeded composition histories (<= 8 composition calls) on a generated pa
         "distinct = parent + children + op list; non-trivial = at least two successful composition calls and one "
         "spliced node whose function depends on a parent signal")
 PROBES = ["fill_after_second_add_blackbox", "same_child_twice", "nested_bb_carried", "child_fed_by_child",
-          "rejected_call", "strip_with_ignore", "strip_plain", "fill_ok", "add_subcircuit_ok", "add_blackbox_ok",
+          "rejected_call", "ignore_pins_as_iterator", "strip_with_ignore", "strip_plain", "fill_ok", "add_subcircuit_ok", "add_blackbox_ok",
           "unattached_child_input", "feedthrough_child", "same_connection_map_object_reused"]
 ASSUMPTIONS = ["<= 10 free signals at any time; histories creating a combinational loop are cut at that point",
                "a child node that is both input and output (feed-through pin) is attached as an INPUT when named in the "
@@ -385,6 +385,8 @@ def gen(rng, tier):
         if pins:
             ign = rng.sample(pins, rng.randint(1, len(pins)))
     ops.append(["strip_blackboxes", ign if len(ign) != 1 or rng.random() < 0.5 else ign[0]])
+    if len(ign) >= 2 and rng.random() < 0.3:
+        ops[-1].append("iter")      # the ignored pins handed over as a one-shot iterable
     return {"parent": parent, "children": children, "ops": ops, "peer": {"seed": rng.getrandbits(32)}}
 
 
@@ -491,7 +493,11 @@ def run(case, ctx):
                 c.fill_blackbox(op[1], kids[op[2]])
             elif k == "strip_blackboxes":
                 before_strip = ref.snapshot(c)
-                res = cg.tx.strip_blackboxes(c, ignore_pins=op[1] if op[1] else None)
+                if len(op) > 2 and op[2] == "iter":
+                    ctx.probe("ignore_pins_as_iterator")
+                    res = cg.tx.strip_blackboxes(c, ignore_pins=iter(list(op[1])))
+                else:
+                    res = cg.tx.strip_blackboxes(c, ignore_pins=op[1] if op[1] else None)
         except Exception as e:
             exc = e
         ctx.log(step, k, "ok" if exc is None else type(exc).__name__, state_digest(c))
